@@ -305,6 +305,162 @@ pub fn determinism(ctx: &Ctx, rep: &mut Report) {
             }
         }
     }
+    // (f) sign, then generate, on one thread, with signing keys whose FIRST tree leaf
+    // (sigma / ||(f,g)||, the width of the last sampler call of every signature) is steered onto
+    // the width key generation itself samples with (1.43300980528773): the keys are made by
+    // the scripted key generator of C04 from (f,g) shrunk to a chosen squared norm (the value
+    // that makes the leaf equal to that constant, and its neighbours). State that the sampler
+    // keeps from its last call must not leak into the next key generation.
+    {
+        fn steered<V: Fv>(ctx: &Ctx, table: &Mutex<HashMap<(String, [u8; 32]), Vec<(String, Fp)>>>, seeds: &[[u8; 32]], rep: &mut Report) {
+            let sigma_star = 1.43300980528773f64;
+            let centre = ((V::SIGMA / sigma_star).powi(2)).round() as i64;
+            let (keys, _) = crate::pool::keys::<V>(ctx.seed, "c15-leaf", 1);
+            let k = match keys.first() {
+                Some(k) => k,
+                None => return,
+            };
+            let b0 = V::basis(&k.sk);
+            let g0: Vec<i64> = b0[0].iter().map(|&x| x as i64).collect();
+            let f0: Vec<i64> = b0[1].iter().map(|&x| -(x as i64)).collect();
+            let done: Mutex<std::collections::HashSet<i64>> = Mutex::new(std::collections::HashSet::new());
+            let r = par_for(5 * 4, ncpu(), |job, rep| {
+                let di = job % 5;
+                let attempt = job / 5;
+                let target = centre + di as i64 - 2;
+                if done.lock().unwrap().contains(&target) {
+                    return;
+                }
+                // a candidate (f,g) with EXACTLY this squared norm that the generator will accept:
+                // small norms only pass the Gram-Schmidt test if the spectrum |f^|^2 + |g^|^2 is
+                // unusually flat, so a random start is hill-climbed (unit moves between two
+                // coefficients that keep the norm) on q^2 mean(1/D) until it is below the bound
+                use rand::Rng;
+                let n = V::N;
+                let mut rng = crate::util::rng_for(ctx.seed, &format!("c15-leaf-search-{}-{}-{}", V::NAME, di, attempt));
+                let sig = (target as f64 / (2 * n) as f64).sqrt();
+                let gauss = |rng: &mut rand_chacha::ChaCha20Rng| -> i64 {
+                    let u1: f64 = rng.gen::<f64>().max(1e-300);
+                    let u2: f64 = rng.gen();
+                    ((-2.0 * u1.ln()).sqrt() * (2.0 * std::f64::consts::PI * u2).cos() * sig).round() as i64
+                };
+                let mut v: Vec<i64> = (0..2 * n).map(|_| gauss(&mut rng)).collect();
+                let nrm = |v: &Vec<i64>| v.iter().map(|x| x * x).sum::<i64>();
+                let mut guard = 0;
+                while nrm(&v) != target && guard < 2_000_000 {
+                    guard += 1;
+                    let cur = nrm(&v);
+                    let i = rng.gen_range(0..2 * n);
+                    if cur > target && v[i] != 0 && cur - (2 * v[i].abs() - 1) >= target {
+                        v[i] -= v[i].signum();
+                    } else if cur < target && cur + 2 * v[i].abs() + 1 <= target {
+                        v[i] += if v[i] != 0 { v[i].signum() } else { 1 };
+                    }
+                }
+                if nrm(&v) != target {
+                    rep.count("leaf_steering_norm_not_reached", 1);
+                    return;
+                }
+                // spectrum at the roots exp(i pi (2k+1)/n)
+                let ang = |k: usize, j: usize| std::f64::consts::PI * ((2 * k + 1) * j) as f64 / n as f64;
+                let mut fr = vec![(0.0f64, 0.0f64); n];
+                let mut gr = vec![(0.0f64, 0.0f64); n];
+                for k in 0..n {
+                    for j in 0..n {
+                        let (c, s_) = (ang(k, j).cos(), ang(k, j).sin());
+                        fr[k].0 += v[j] as f64 * c;
+                        fr[k].1 += v[j] as f64 * s_;
+                        gr[k].0 += v[n + j] as f64 * c;
+                        gr[k].1 += v[n + j] as f64 * s_;
+                    }
+                }
+                let q = 12289.0f64;
+                let cost = |fr: &Vec<(f64, f64)>, gr: &Vec<(f64, f64)>| q * q * (0..n).map(|k| 1.0 / (fr[k].0 * fr[k].0 + fr[k].1 * fr[k].1 + gr[k].0 * gr[k].0 + gr[k].1 * gr[k].1)).sum::<f64>() / n as f64;
+                let mut c = cost(&fr, &gr);
+                let goal = 1.3689 * q - 25.0;
+                for _ in 0..400_000 {
+                    if c <= goal {
+                        break;
+                    }
+                    let (a, b) = (rng.gen_range(0..2 * n), rng.gen_range(0..2 * n));
+                    if a == b || v[a].abs() != v[b].abs() + 1 {
+                        continue;
+                    }
+                    let sa = -v[a].signum();
+                    let sb = if v[b] != 0 { v[b].signum() } else if rng.gen() { 1 } else { -1 };
+                    let (mut f2, mut g2) = (fr.clone(), gr.clone());
+                    for (idx, sg) in [(a, sa), (b, sb)] {
+                        let j = idx % n;
+                        for k in 0..n {
+                            let (cc, ss) = (ang(k, j).cos() * sg as f64, ang(k, j).sin() * sg as f64);
+                            if idx < n {
+                                f2[k].0 += cc;
+                                f2[k].1 += ss;
+                            } else {
+                                g2[k].0 += cc;
+                                g2[k].1 += ss;
+                            }
+                        }
+                    }
+                    let c2 = cost(&f2, &g2);
+                    if c2 < c {
+                        v[a] += sa;
+                        v[b] += sb;
+                        fr = f2;
+                        gr = g2;
+                        c = c2;
+                    }
+                }
+                if c > goal {
+                    rep.count("leaf_steering_search_gave_up", 1);
+                    return;
+                }
+                let (f, g): (Vec<i64>, Vec<i64>) = (v[..n].to_vec(), v[n..].to_vec());
+                let made = super::c04::scripted_key::<V>(ctx.seed, &format!("c15-leaf-{}-{}-{}", V::NAME, di, attempt), &[(f.clone(), g.clone()), (f0.clone(), g0.clone())]);
+                let (fo, go, sk, _pk) = match made {
+                    Some(x) => x,
+                    None => return,
+                };
+                if fo != f || go != g {
+                    // the steered candidate was not accepted by the generator (its own checks)
+                    rep.count("leaf_steered_candidate_not_accepted", 1);
+                    return;
+                }
+                if !done.lock().unwrap().insert(target) {
+                    return;
+                }
+                rep.count(&format!("leaf_steered_key_{}_norm_{}", V::NAME, target), 1);
+                let first_leaf = V::leaves(&sk)[0][0].0;
+                rep.stat_min(&format!("closest_first_leaf_to_keygen_sigma_{}", V::NAME), (first_leaf - sigma_star).abs());
+                let seeds = seeds.to_vec();
+                let label = format!("right after signing with a key whose first leaf is {:.7} ({}, ||(f,g)||^2 = {})", first_leaf, V::NAME, target);
+                let got = std::thread::spawn(move || {
+                    let mut out = vec![];
+                    for s in seeds {
+                        let _ = monitored(|| V::sign(b"leaf", &sk));
+                        out.push((false, s, fingerprint::<F512>(s)));
+                        let _ = monitored(|| V::sign(b"leaf", &sk));
+                        out.push((true, s, fingerprint::<F1024>(s)));
+                    }
+                    out
+                })
+                .join();
+                if let Ok(v) = got {
+                    let mut t = table.lock().unwrap();
+                    for (big, s, r) in v {
+                        rep.evaluations += 1;
+                        if let Ok(fp) = r {
+                            record(&mut t, if big { "falcon1024" } else { "falcon512" }, s, &label, fp);
+                        }
+                    }
+                    rep.count("sign_then_keygen_histories_with_leaf_steered_keys", 1);
+                }
+            });
+            rep.merge(r);
+        }
+        steered::<F1024>(ctx, &table, &xs, rep);
+        steered::<F512>(ctx, &table, &xs, rep);
+    }
     for (c, mut ch, out) in kids {
         let st = ch.wait();
         let text = std::fs::read_to_string(&out).unwrap_or_default();
